@@ -119,9 +119,11 @@ def near_miss_oracle(chk, nm):
     for cid, c in sorted(nm["res"].items()):
         mt = nm["meta"][cid]
         if c["budget"]:
-            raise AnalysisBroken("near-miss cell %s exhausted its path budget" % cid)
+            chk.deferred.append("near-miss cell %s exhausted its path budget" % cid)
         soft = [a for p in c["paths"] for a in p["alarms"] if a["kind"] in ("MODEL", "BUDGET")]
-        if soft:
+        if soft and all(a["kind"] == "BUDGET" for a in soft):
+            chk.deferred.append("near-miss cell %s: %s" % (cid, soft[0]["msg"]))
+        elif soft:
             raise AnalysisBroken("near-miss cell %s: %s" % (cid, soft[0]["msg"]))
         shown = xai.show([(s, 0) for s in mt["pattern"]])
         succ = [p for p in c["paths"] if p["ret"].startswith("ptr:")]
@@ -205,14 +207,16 @@ def oracle(chk, cg):
     for cid, c in sorted(cg["res"].items()):
         mt = cg["meta"][cid]
         if c["budget"]:
-            raise AnalysisBroken("composition cell %s exhausted its path budget" % cid)
+            chk.deferred.append("composition cell %s exhausted its path budget" % cid)
         pat = mt["pattern"]
         shown = xai.show([(s, 0) for s in pat])
         rej = [p for p in c["paths"] if p["ret"] == "null" and p["errno"] not in (None, "any") and p["errno"][0] <= EINVAL <= p["errno"][1]
                and p.get("errno_at", "").split(":")[0] not in NOT_A_REJECTION]
         hard = [a for p in c["paths"] for a in p["alarms"] if a["kind"] not in ("MODEL", "BUDGET")]
         soft = [a for p in c["paths"] for a in p["alarms"] if a["kind"] in ("MODEL", "BUDGET")]
-        if soft:
+        if soft and all(a["kind"] == "BUDGET" for a in soft):
+            chk.deferred.append("composition cell %s: %s" % (cid, soft[0]["msg"]))
+        elif soft:
             raise AnalysisBroken("composition cell %s: %s" % (cid, soft[0]["msg"]))
         if rej:
             chk.fail("X-ACCEPT", "%s|len=%d" % (mt["method"], len(pat)),
